@@ -507,6 +507,16 @@ def c11(tier, seed):
     g, scs = gen_scenarios("C11", "Gen_Routes", env={"KIND": "xform", "NVAR": 6 if th else 2, "NK": 12 if th else 6, "SALT": seed}, timeout=1200)
     v.add_tlc(g)
     v.exhaustive = True
+    # invertible transforms with a tiny determinant (scale 1/4096, 1/3000 with a rotation) applied to geometry given in
+    # correspondingly large units: fill under T must still equal fill of Path::transform(T)
+    for j, (m, md) in enumerate((([1, 0, 0, 1, 4096, 8192], 4096), ([0, 1, -1, 0, 12000, 0], 3000), ([3, 4, -4, 3, 20480, 0], 20480))):
+        k = md if m[0] in (0, 1) else md // 5
+        big = [["M", 0, 0], ["L", 3 * k * 4, 0], ["L", 0, 3 * k * 4], ["Z"], ["M", k * 4, k * 2], ["Q", 4 * k * 4, 2 * k * 4, 2 * k * 4, 3 * k * 4]]
+        src = {"kind": "solid", "c": [200, 10, 200, 100]}
+        o = {"blend": "SrcOver", "alpha": [1, 1], "aa": True}
+        scs.append({"id": "tiny-det-%d" % j, "fam": "routes", "w": 6, "h": 6, "den": 4, "init": "distinct",
+                    "a": [{"op": "set_transform", "m": m, "mden": md}, {"op": "fill", "path": {"ops": big}, "src": src, "opts": o}],
+                    "b": [{"op": "fill", "path": {"ops": big}, "pretransform": {"m": m, "mden": md}, "src": src, "opts": o}]})
     routes_validate("C11", v, scs, "routes")
     scs2 = canvas_gen("C11", v, "xform", 2, 28 if th else 8, salt=seed)
     scs2 += canvas_gen("C11", v, "xform", 3, 3, draws=2, simulate=3000 if th else 500, depth=6, seed=seed, salt=seed)
